@@ -22,6 +22,7 @@ def run(ctx):
     okp, log = ctx.prove("props/C17.v", "C17")
     rng = random.Random(ctx.seed + 31)
     mods = ds.modules(ctx, rng, 1 if ctx.tier == "quick" else 4)
+    mods.append((os.path.join(common.VERIF, "corpus", "c17"), False))      # templ component functions (finding F18)
     extra = []
     if ctx.tier == "thorough":
         extra = [(common.REPO, ["./inference/...", "./diagnostic/...", "./annotation/...", "./assertion/function/preprocess/..."])]
